@@ -37,7 +37,11 @@ class InotifyBuffer(BaseThread):
         paired move event. If this buffer has been closed, immediately return
         None.
         """
-        return self._queue.get()
+        event = self._queue.get()
+        if isinstance(event, InotifyEvent) and event.is_moved_from and event.is_directory:
+            # Still unmatched after the delay: the directory has left the watched tree.
+            self._inotify.remove_watches_below(event.src_path)
+        return event
 
     def on_thread_stop(self) -> None:
         self._inotify.close()
